@@ -315,7 +315,10 @@ def _classify_project(c: Ctx) -> Tuple:
             doc = parse(q)
         except GraphQLSyntaxError:
             return ("unspecified",)     # each file parses alone but the concatenation does not
-        errs = validate(schema, doc, rules=[r for r in specified_rules if r is not NoUnusedFragmentsRule])
+        try:
+            errs = validate(schema, doc, rules=[r for r in specified_rules if r is not NoUnusedFragmentsRule])
+        except Exception:
+            return ("unspecified",)     # graphql-core's validator itself raised on this document: no reference verdict
         if errs:
             return ("invalid", ("InvalidOperationForSchema",), None)
         if not any(d.kind == "operation_definition" and d.name for d in doc.definitions) and not c.cfg.get("enable_custom_operations"):
@@ -516,6 +519,42 @@ def _ast_mutation(rule):
                 variable=VariableNode(name=name("zzStr")), type=NamedTypeNode(name=name("String"))),)
             fields[0].directives = tuple(fields[0].directives or ()) + (DirectiveNode(name=name("include"), arguments=(
                 ArgumentNode(name=name("if"), value=VariableNode(name=name("zzStr"))),)),)
+        elif rule == "executable_definitions":
+            extra = "\n\ntype ZzTypeInQueries {\n  a: Int\n}"
+        elif rule == "single_field_subscription":
+            subs = [o for o in ops if o.operation.value == "subscription"]
+            if not subs:
+                return "skip"
+            f0 = [s_ for s_ in subs[0].selection_set.selections if s_.kind == "field"][0]
+            dup = FieldNode(name=f0.name, alias=name("zzSecondRoot"), arguments=f0.arguments, selection_set=f0.selection_set)
+            subs[0].selection_set.selections = tuple(subs[0].selection_set.selections) + (dup,)
+        elif rule == "variable_not_input_type":
+            if not ops:
+                return "skip"
+            tn = [d["name"] for d in c.world["defs"] if d["kind"] == "type"][0]
+            ops[0].variable_definitions = tuple(ops[0].variable_definitions or ()) + (VariableDefinitionNode(
+                variable=VariableNode(name=name("zzObj")), type=NamedTypeNode(name=name(tn))),)
+        elif rule == "impossible_fragment_spread":
+            from graphql import FragmentSpreadNode
+            if not ops or not frs:
+                return "skip"
+            ops[0].selection_set.selections = tuple(ops[0].selection_set.selections) + (FragmentSpreadNode(name=name(frs[0].name.value)),)
+        elif rule == "duplicate_variable":
+            withvars = [o for o in ops if o.variable_definitions]
+            if not withvars:
+                return "skip"
+            withvars[0].variable_definitions = tuple(withvars[0].variable_definitions) + (withvars[0].variable_definitions[0],)
+        elif rule == "duplicate_directive":
+            if not fields:
+                return "skip"
+            from graphql import BooleanValueNode
+            d_ = DirectiveNode(name=name("include"), arguments=(ArgumentNode(name=name("if"), value=BooleanValueNode(value=True)),))
+            fields[0].directives = tuple(fields[0].directives or ()) + (d_, d_)
+        elif rule == "duplicate_argument":
+            withargs = [f for f in fields if f.arguments]
+            if not withargs:
+                return "skip"
+            withargs[0].arguments = tuple(withargs[0].arguments) + (withargs[0].arguments[0],)
         else:
             raise ValueError(rule)
         with open(p, "w", encoding="utf-8") as f:
@@ -530,7 +569,8 @@ OP_RULES = ["unknown_field", "leaf_with_selection", "object_without_selection", 
             "variable_unknown_type", "unknown_argument", "unknown_directive", "directive_missing_required_arg",
             "wrong_literal_type", "conflicting_fields", "duplicate_operation_name", "duplicate_fragment_name",
             "fragment_unknown_type", "fragment_on_scalar", "fragment_cycle", "unknown_fragment_spread",
-            "missing_required_argument", "variable_in_wrong_position"]
+            "missing_required_argument", "variable_in_wrong_position", "executable_definitions", "single_field_subscription",
+            "variable_not_input_type", "impossible_fragment_spread", "duplicate_variable", "duplicate_directive", "duplicate_argument"]
 
 FAULTS: Dict[str, Callable] = {
     "control:no_fault": f_no_fault, "control:unknown_keys": f_unknown_keys, "control:reordered_keys": f_reordered_keys,
